@@ -145,6 +145,9 @@ func (f *FSM) Snapshot(w io.Writer) error {
 	// Two snapshots of one node must not get the same snapshot-<UnixNano> directory name;
 	// under a virtual clock that needs an explicit tick (a real clock always moves).
 	time.Sleep(time.Microsecond)
+	if sf, ok := w.(*snapFileW); ok {
+		sf.own = true
+	}
 	if !f.detached() {
 		c.rec.Emit("snapshot_begin", Ev{"node": f.n.id, "inc": f.n.inc})
 	}
